@@ -302,4 +302,25 @@ func init() {
 		Replay: map[string]*ReplaySpec{
 			"VerifC14CLI": {PkgDir: "cmd/taskctl", File: "C14_cli_replay_test.go", Test: "TestVerifReplayC14CLI"},
 			"*":           {PkgDir: "pkg/runner", File: "C14_replay_test.go", Test: "TestVerifReplayC14"}}})
+
+	c08jobs := func(tier string) []*Job {
+		var js []*Job
+		pb := int64(1)
+		if tier == "thorough" {
+			pb = 2
+		}
+		for arr := int64(0); arr < 4; arr++ {
+			js = append(js, &Job{Pkg: pkgConfig, Func: "VerifC08", Args: []int64{arr, pb}, Timeout: 30 * time.Minute, MaxSteps: 2000000000})
+		}
+		return js
+	}
+	register(&PropSpec{ID: "C08", Jobs: c08jobs,
+		Covers: []string{"C08.checked"},
+		Bounds: map[string]interface{}{
+			"quick":    "3 stages sharing one task (s0 overrides env K, variable K and dir; s1 env K; s2 nothing) in four dependency arrangements (parallel, two chains, mixed), followed by a second pipeline and a direct-run view of the same task; all values symbolic over a 3-element domain; thread mode with preemption bound 1",
+			"thorough": "preemption bound 2",
+		},
+		Outside:     []string{"more than 3 stages / 1 key per kind", "what the commands then see in their process environment (C09)", "the CLI echo path"},
+		Assumptions: []string{"runner.Runner replaced by a recording stand-in that reads t.Env / t.Variables / t.Dir at the call", "real: config.buildTask, config.buildPipeline, Scheduler.Schedule/runStage, variables.Variables (sync.Map intrinsic)"},
+		Replay:      map[string]*ReplaySpec{"*": {PkgDir: "internal/config", File: "C08_replay_test.go", Test: "TestVerifReplayC08"}}})
 }
